@@ -92,11 +92,27 @@ func verifC13Setup() {
 	}
 }
 
+var verifC13BigDone bool
+
+func verifC13BigDir() {
+	if verifC13BigDone {
+		return
+	}
+	verifC13BigDone = true
+	for d := 0; d < 20; d++ {
+		dir := filepath.Join(verifC13Dir, "recbig", fmt.Sprintf("d%02d", d), "x")
+		os.MkdirAll(dir, 0o755) //nolint:errcheck
+		for i := 0; i < 600; i++ {
+			os.WriteFile(filepath.Join(dir, fmt.Sprintf("junk%04d.txt", i)), nil, 0o644) //nolint:errcheck
+		}
+	}
+}
+
 // base configurations (parsed by the real conf.Load, i.e. the file-reload path)
 func verifC13Base(variant int) (*conf.Conf, error) {
 	verifC13Setup()
 	enc, extra, rda := "optional", "", "    recordDeleteAfter: 1h\n"
-	http, media, defRDA := "yes", "yes", ""
+	http, media, defRDA, recDir := "yes", "yes", "", "rec"
 	switch variant {
 	case 1:
 		extra = "rtspUDPReadBufferSize: 4096\n"
@@ -104,6 +120,11 @@ func verifC13Base(variant int) (*conf.Conf, error) {
 		enc, http, rda, defRDA = "strict", "no", "", "  recordDeleteAfter: 0s\n" // no record cleaner
 	case 3:
 		enc, media = "no", "no"
+	case 4:
+		// like 2 (no record cleaner to begin with), record path below a directory with many files
+		enc, http, rda, defRDA = "strict", "no", "", "  recordDeleteAfter: 0s\n"
+		recDir = "recbig"
+		verifC13BigDir()
 	}
 	yml := fmt.Sprintf(`
 logLevel: error
@@ -158,12 +179,12 @@ moqQUICAddress: 127.0.0.1:0
 moqServerKey: %[1]s
 moqServerCert: %[2]s
 %[5]spathDefaults:
-  recordPath: %[3]s/rec/%%path/%%Y-%%m-%%d_%%H-%%M-%%S-%%f
+  recordPath: %[3]s/%[10]s/%%path/%%Y-%%m-%%d_%%H-%%M-%%S-%%f
 %[9]spaths:
   all_others:
   cam1:
   rec:
-%[6]s`, verifC13KeyA, verifC13CertA, verifC13Dir, enc, extra, rda, http, media, defRDA)
+%[6]s`, verifC13KeyA, verifC13CertA, verifC13Dir, enc, extra, rda, http, media, defRDA, recDir)
 	fp := filepath.Join(verifC13Dir, "conf.yml")
 	if err := os.WriteFile(fp, []byte(yml), 0o644); err != nil {
 		return nil, err
@@ -172,24 +193,54 @@ moqServerCert: %[2]s
 	return c, err
 }
 
-func verifC13NewCore(c *conf.Conf) (*Core, error) {
+// withRun: start the real Core.run loop as New does, so that configuration changes can be delivered the
+// way the API delivers them (APIConfigPaths* -> channel -> Core.run)
+func verifC13NewCore(c *conf.Conf, withRun bool) (*Core, error) {
 	ctx, ctxCancel := context.WithCancel(context.Background())
-	p := &Core{ctx: ctx, ctxCancel: ctxCancel, done: make(chan struct{})}
+	p := &Core{
+		ctx: ctx, ctxCancel: ctxCancel,
+		chAPIConfigGlobalPatch:       make(chan configGlobalPatchReq),
+		chAPIConfigPathDefaultsPatch: make(chan configPathDefaultsPatchReq),
+		chAPIConfigPathAdd:           make(chan configPathAddReq),
+		chAPIConfigPathPatch:         make(chan configPathPatchReq),
+		chAPIConfigPathReplace:       make(chan configPathReplaceReq),
+		chAPIConfigPathDelete:        make(chan configPathDeleteReq),
+		done:                         make(chan struct{}),
+	}
 	p.conf.Store(c)
 	err := p.createResources(true)
 	if err != nil {
 		verifC13Close(p)
 		return nil, err
 	}
+	if withRun {
+		verifC13Ran[p] = true
+		go p.run()
+	}
 	return p, nil
 }
 
+var verifC13Ran = map[*Core]bool{}
+
+var verifC13NullLogger *logger.Logger
+
 func verifC13Close(p *Core) {
+	if verifC13NullLogger == nil {
+		verifC13NullLogger = &logger.Logger{Level: logger.Error, Destinations: nil}
+		verifC13NullLogger.Initialize() //nolint:errcheck
+	}
+	// closeResources(nil) leaves p.logger nil; in the real program the process exits right after, here it
+	// lives on and a straggling goroutine of a closed component (seen once: an encrypted API server
+	// logging through its parent after Close) would dereference it
+	defer func() { p.logger = verifC13NullLogger }()
+	if verifC13Ran[p] {
+		delete(verifC13Ran, p)
+		p.Close() // ctxCancel; Core.run closes the resources and closes p.done
+		return
+	}
 	p.ctxCancel()
 	if p.logger == nil { // closeResources logs through p.logger when it waits for hooks
-		l := &logger.Logger{Level: logger.Error, Destinations: nil}
-		l.Initialize() //nolint:errcheck
-		p.logger = l
+		p.logger = verifC13NullLogger
 	}
 	p.closeResources(nil)
 }
@@ -619,6 +670,125 @@ func verifC13PathNames(pm *pathManager) []string {
 	return names
 }
 
+func verifC13JSONPath(js string) conf.OptionalPath {
+	var op conf.OptionalPath
+	if err := json.Unmarshal([]byte(js), &op); err != nil {
+		panic(err)
+	}
+	return op
+}
+
+// verifC13API delivers one path-configuration change the way the HTTP API does: through the exported
+// APIConfig* methods, i.e. a request on Core's channel handled by the real Core.run loop.
+func verifC13API(p *Core, what string) error {
+	cur := p.conf.Load()
+	cam := "cam1"
+	if _, ok := cur.OptionalPaths["cam2"]; ok {
+		cam = "cam2"
+	}
+	switch what {
+	case "cred": // a path with legacy per-path credentials appears / disappears
+		if _, ok := cur.OptionalPaths["secret"]; ok {
+			return p.APIConfigPathsDelete("secret")
+		}
+		return p.APIConfigPathsAdd("secret", verifC13JSONPath(`{"publishUser": "pubuser", "publishPass": "pubpass"}`))
+	case "credpatch": // legacy read credentials are set / changed on an existing path
+		if cur.Paths[cam] != nil && cur.Paths[cam].ReadUser != nil && *cur.Paths[cam].ReadUser == "ruser" {
+			return p.APIConfigPathsPatch(cam, verifC13JSONPath(`{"readUser": "ruser2", "readPass": "rpass2"}`))
+		}
+		return p.APIConfigPathsPatch(cam, verifC13JSONPath(`{"readUser": "ruser", "readPass": "rpass"}`))
+	case "credreplace": // … and removed again by replacing the entry
+		return p.APIConfigPathsReplace(cam, verifC13JSONPath(`{}`))
+	case "defaults":
+		if cur.PathDefaults.MaxReaders == 9 {
+			return p.APIConfigPathDefaultsPatch(verifC13JSONPath(`{"maxReaders": 0}`))
+		}
+		return p.APIConfigPathDefaultsPatch(verifC13JSONPath(`{"maxReaders": 9}`))
+	case "add":
+		if _, ok := cur.OptionalPaths["apiextra"]; ok {
+			return p.APIConfigPathsDelete("apiextra")
+		}
+		return p.APIConfigPathsAdd("apiextra", verifC13JSONPath(`{"maxReaders": 2}`))
+	case "global":
+		var og conf.OptionalGlobal
+		js := `{"writeQueueSize": 1024}`
+		if cur.WriteQueueSize == 1024 {
+			js = `{"writeQueueSize": 512}`
+		}
+		if err := json.Unmarshal([]byte(js), &og); err != nil {
+			panic(err)
+		}
+		return p.APIConfigGlobalPatch(og)
+	}
+	return fmt.Errorf("unknown api op")
+}
+
+// verifC13Deliver performs the reload(s) of one op; "" = delivered.
+func verifC13Deliver(p *Core, f []string) string {
+	direct := func(nc *conf.Conf) string {
+		err, panicked := verifC13Reload(p, nc)
+		if panicked {
+			return "panic in reloadConf"
+		}
+		if err != nil {
+			return "reloaderr"
+		}
+		return ""
+	}
+	switch f[0] {
+	case "api":
+		if err := verifC13API(p, f[1]); err != nil {
+			return "invalid"
+		}
+		// Core.run answers the request BEFORE it reloads; a second request that is refused without a
+		// reload returns only after the loop is back in its select, i.e. after the reload
+		p.APIConfigPathsDelete("verif-no-such-path") //nolint:errcheck
+		return ""
+	case "burst":
+		// several reloads back to back, nothing waits in between; the observation afterwards is against
+		// the LAST configuration
+		for i, m := range f[1:] {
+			nc := p.conf.Load().Clone()
+			if !verifC13Flip(nc, m) || nc.Validate(nil) != nil {
+				if i > 0 {
+					break
+				}
+				return "invalid"
+			}
+			if st := direct(nc); st != "" {
+				return st
+			}
+		}
+		return ""
+	}
+	nc := p.conf.Load().Clone()
+	for _, m := range f[1:] {
+		if !verifC13Flip(nc, m) {
+			return "invalid"
+		}
+	}
+	if err := nc.Validate(nil); err != nil {
+		return "invalid"
+	}
+	if f[0] == "reloadf" {
+		// the file path: serialise the new configuration and let the real conf.Load parse it
+		// (JSON is YAML), exactly what Core.run does when the configuration file changes
+		byts, err := json.Marshal(nc)
+		if err != nil {
+			return "invalid"
+		}
+		fp := filepath.Join(verifC13Dir, "reload.yml")
+		if err := os.WriteFile(fp, byts, 0o644); err != nil {
+			return "invalid"
+		}
+		nc, _, err = conf.Load(fp, nil, nil)
+		if err != nil {
+			return "invalid"
+		}
+	}
+	return direct(nc)
+}
+
 func verifC13Reload(p *Core, nc *conf.Conf) (err error, panicked bool) {
 	defer func() {
 		if r := recover(); r != nil {
@@ -648,7 +818,7 @@ func verifC13Exec(op string) string {
 		if err != nil {
 			return "err conf " + err.Error()
 		}
-		p, err := verifC13NewCore(c)
+		p, err := verifC13NewCore(c, true)
 		if err != nil {
 			return "err boot " + err.Error()
 		}
@@ -656,37 +826,34 @@ func verifC13Exec(op string) string {
 		verifC13Observe = "stale=- badref=-"
 		return "run=" + verifC13Join(verifC13Running(p))
 
-	case "reload", "reloadf":
+	case "reload", "reloadf", "api", "burst":
 		p := verifC13P
 		if p == nil {
 			return "dead"
 		}
 		old := p.conf.Load()
-		nc := old.Clone()
-		for _, m := range f[1:] {
-			if !verifC13Flip(nc, m) {
-				return "invalid"
+
+		before := verifC13Comps(p)
+		beforePtr := map[string]uintptr{}
+		keep := []any{}
+		for n, v := range before {
+			if !v.IsNil() {
+				beforePtr[n] = v.Pointer()
+				keep = append(keep, v.Interface()) // keeps the old object alive: no address reuse
 			}
 		}
-		if err := nc.Validate(nil); err != nil {
-			return "invalid"
+
+		if st := verifC13Deliver(p, f); st != "" {
+			if st != "invalid" {
+				if st != "panic in reloadConf" {
+					verifC13Close(p)
+				}
+				verifC13P = nil // after a panic the Core is in an undefined state: abandoned (leaks its listeners)
+				verifC13Observe = "dead"
+			}
+			return st
 		}
-		if f[0] == "reloadf" {
-			// the file path: serialise the new configuration and let the real conf.Load parse it
-			// (JSON is YAML), exactly what Core.run does when the configuration file changes
-			byts, err := json.Marshal(nc)
-			if err != nil {
-				return "invalid"
-			}
-			fp := filepath.Join(verifC13Dir, "reload.yml")
-			if err := os.WriteFile(fp, byts, 0o644); err != nil {
-				return "invalid"
-			}
-			nc, _, err = conf.Load(fp, nil, nil)
-			if err != nil {
-				return "invalid"
-			}
-		}
+		nc := p.conf.Load()
 
 		// what changed, observed on the two configurations only
 		var chg, ptr []string
@@ -709,33 +876,11 @@ func verifC13Exec(op string) string {
 		sort.Strings(chg)
 		sort.Strings(ptr)
 
-		before := verifC13Comps(p)
-		beforePtr := map[string]uintptr{}
-		keep := []any{}
-		for n, v := range before {
-			if !v.IsNil() {
-				beforePtr[n] = v.Pointer()
-				keep = append(keep, v.Interface()) // keeps the old object alive: no address reuse
-			}
-		}
-
-		err, panicked := verifC13Reload(p, nc)
-		if panicked {
-			verifC13P = nil // the Core is in an undefined state: abandon it (leaks its listeners)
-			verifC13Observe = "dead"
-			return "panic in reloadConf"
-		}
-		if err != nil {
-			verifC13Close(p)
-			verifC13P = nil
-			verifC13Observe = "dead"
-			return "reloaderr"
-		}
 		if p.pathManager != nil {
 			p.pathManager.APIPathsList() //nolint:errcheck // barrier: the in-place reload has been processed
 		}
 
-		twin, err := verifC13NewCore(nc)
+		twin, err := verifC13NewCore(nc, false)
 		if err != nil {
 			verifC13Close(p)
 			verifC13P = nil
@@ -840,6 +985,27 @@ func verifC13Gen(r *verifutil.Rand, i int, thorough bool) []string {
 			"reload PathsRename", "observe", "reloadf PathsRename", "observe", "reload PathsEdit", "observe",
 		}
 	}
+	if i == nSweep+1 {
+		// path-configuration changes delivered the way the API delivers them (APIConfigPaths* through the
+		// real Core.run), among them legacy per-path credentials, from which conf.Validate derives the
+		// GLOBAL authInternalUsers
+		return []string{
+			"reset 0", "api cred", "observe", "api cred", "observe", "api defaults", "observe", "api add", "observe",
+			"api global", "observe", "api add", "observe",
+			"reset 0", "api credpatch", "observe", "api credreplace", "observe", "api defaults", "observe",
+		}
+	}
+	if i == nSweep+2 {
+		// reloads back to back while the freshly created record cleaner is still busy with its first run:
+		// variant 4 has no cleaner and a large record directory; the first reload of each burst switches
+		// recordDeleteAfter on (only the cleaner is created, its first run walks the directory), the next
+		// ones change the paths.  The cleaner must end up with the LAST path configuration.
+		return []string{
+			"reset 4", "burst PathsRDA PathsRename PathsEdit", "observe", "reload PathsRDA", "observe",
+			"burst PathsRDA PathsEdit PathsRename Paths+", "observe", "reload PathsRDA", "observe",
+			"burst PathsRDA Paths+ PathsRename", "observe",
+		}
+	}
 	// random histories: 1..4 fields per reload, all four base variants
 	ops = append(ops, fmt.Sprintf("reset %d", r.Intn(4)))
 	n := 3 + r.Intn(4)
@@ -865,7 +1031,14 @@ func verifC13Gen(r *verifutil.Rand, i int, thorough bool) []string {
 		if r.Chance(1, 3) {
 			verb = "reloadf "
 		}
-		ops = append(ops, verb+strings.Join(ms, " "), "observe")
+		switch {
+		case r.Chance(1, 8):
+			ops = append(ops, "api "+r.Pick("cred", "credpatch", "credreplace", "defaults", "add", "global"), "observe")
+		case r.Chance(1, 10):
+			ops = append(ops, "burst "+r.Pick("PathsRename PathsEdit", "PathsEdit Paths+ PathsRename", "PathDefaults PathsRename"), "observe")
+		default:
+			ops = append(ops, verb+strings.Join(ms, " "), "observe")
+		}
 	}
 	return ops
 }
@@ -873,7 +1046,7 @@ func verifC13Gen(r *verifutil.Rand, i int, thorough bool) []string {
 func verifC13Class(op, impl string) string {
 	w := strings.Fields(op)
 	switch w[0] {
-	case "reload", "reloadf":
+	case "reload", "reloadf", "api", "burst":
 		if !strings.HasPrefix(impl, "chg=") {
 			return "reload/" + impl
 		}
@@ -901,9 +1074,9 @@ func verifC13Class(op, impl string) string {
 func TestVerifC13(t *testing.T) {
 	h := &verifutil.Harness{
 		ID: "C13", Exec: verifC13Exec, Gen: verifC13Gen,
-		Quick: 18 + 11, Thorough: 18 + 150,
+		Quick: 20 + 9, Thorough: 20 + 150,
 		Class:      verifC13Class,
-		NonTrivial: func(op, impl string) bool { return strings.HasPrefix(op, "reload") && strings.HasPrefix(impl, "chg=") },
+		NonTrivial: func(op, impl string) bool { return !strings.HasPrefix(op, "observe") && strings.HasPrefix(impl, "chg=") },
 	}
 	verifutil.Main(t, h)
 	if verifC13P != nil {
